@@ -316,7 +316,7 @@ def _gen_atoms(rng):
             if prev is not None and (a[0], a[1], a[2], a[3]) != prev and rng.random() < 0.35:
                 hi = not hi
             prev = (a[0], a[1], a[2], a[3])
-            a[1] = (2 ** 63 - 1 - 300 + a[1]) if hi else (-2 ** 63 + 300 + a[1])
+            a[1] = min(2 ** 63 - 1, 2 ** 63 - 1 - 1500 + a[1]) if hi else max(-2 ** 63, -2 ** 63 + 1500 + a[1])
     if rng.random() < 0.25:                              # per-atom noise
         for _ in range(rng.randint(1, 3)):
             a = rng.choice(atoms)
